@@ -147,7 +147,7 @@ def r4_enumerator(ctx, rep, R='C19.R4'):
     ok = False
     why = 'threadsupport.enumerate not found'
     if fi is not None:
-        from .common import sources_of, local_assignments, nodes_calling
+        from .common import sources_of, local_assignments, nodes_calling, yields_call_of
         assigns = local_assignments(fi.node)
         rets = [n for n in ast.walk(fi.node) if isinstance(n, ast.Return) and n.value is not None]
         why = 'the result does not hold one ThreadProxy per identifier of current_frames()'
@@ -156,7 +156,7 @@ def r4_enumerator(ctx, rep, R='C19.R4'):
             g0 = comp.generators[0]
             src = sources_of(g0.iter, assigns)
             ok = 'current_frames' in src and not g0.ifs and len(comp.generators) == 1 and \
-                isinstance(comp.elt, ast.Call) and dotted(comp.elt.func) == 'ThreadProxy'
+                yields_call_of(ctx, mod, comp.elt, 'ThreadProxy')
         elif len(rets) == 1 and isinstance(rets[0].value, ast.Name):
             res = rets[0].value.id
             g = ctx.cfg(fi)
@@ -164,8 +164,7 @@ def r4_enumerator(ctx, rep, R='C19.R4'):
                      'current_frames' in sources_of(n.ast, assigns)]
             apps = nodes_calling(g, lambda c: isinstance(c.func, ast.Attribute) and
                                  c.func.attr == 'append' and is_name(c.func.value, res) and c.args and
-                                 isinstance(c.args[0], ast.Call) and
-                                 dotted(c.args[0].func) == 'ThreadProxy')
+                                 yields_call_of(ctx, mod, c.args[0], 'ThreadProxy'))
             if len(loops) == 1 and apps:
                 body = [d for d, k in g.succ[loops[0].id] if k == 'true']
                 r = g.reach(body, avoid=set(apps), include_start=True)
